@@ -291,14 +291,23 @@ def r2_3(ctx):
     ctx.floor(rid, n, 6, "set_zero_dim_univ call sites")
 
 
+def r2_5(ctx):
+    from rules import precond
+    rid = "R2.5"
+    ctx.rule(rid, "withdrawing a description loses nothing: clear_generators_up_to_date() / clear_constraints_up_to_date() is reached, on every CFG path, only where the other description is known complete and the withdrawn side holds no pending rows (facts from flag tests, integrating calls and the class invariants; a possibly-empty receiver is judged in its non-empty case); otherwise the rows only the withdrawn side knew are dropped and the operation computes a different set")
+    n = precond.discharge(ctx, rid, {}, only_callees=precond.DISCARDS)
+    ctx.floor(rid, n, 22, "description-withdrawing call sites")
+
+
 def run(ctx):
     ctx.explanation = ("C02 degenerate-receiver clause: typestate (maybe-empty / known non-empty) of the receiver along all CFG paths to the call sites of members "
                        "that assert non-emptiness; decides this clause, not which set the operators compute")
     ctx.assumptions = ["the asserted preconditions are read from the assertion-enabled (debug) view of the same sources",
-                       "every other conjunct of the asserted preconditions (up-to-date, pending) is not tracked"]
+                       "R2.3 judges non-emptiness only; R2.5 judges the up-to-date / pending facts at the description-withdrawing calls only"]
     r2_1(ctx)
     r2_2(ctx)
     r2_3(ctx)
+    r2_5(ctx)
     from rules import dirty
     fxd = ctx.extract([F.lib_unit(n) for n in FILES + ["Generator.cc", "Constraint.cc", "Generator_System.cc", "Constraint_System.cc",
                                                         "Polyhedron_nonpublic.cc", "BHRZ03_Certificate.cc", "H79_Certificate.cc"]]
